@@ -91,6 +91,15 @@ func (s *V2SessionlessTransport) newV2Session(ctx context.Context, opts *V2Sessi
 	if err != nil {
 		return nil, err
 	}
+	if cipherSuite.AuthenticationAlgorithm == ipmi.AuthenticationAlgorithmNone ||
+		cipherSuite.IntegrityAlgorithm == ipmi.IntegrityAlgorithmNone ||
+		cipherSuite.ConfidentialityAlgorithm == ipmi.ConfidentialityAlgorithmNone {
+		// sending and receiving within such a session is not implemented (it
+		// would dereference a nil integrity algorithm or confidentiality
+		// layer), so refuse before opening one on the BMC
+		return nil, fmt.Errorf("cipher suites without authentication, integrity or confidentiality are not supported: %v",
+			cipherSuite)
+	}
 
 	openSessionRsp, err := s.openSession(ctx, &ipmi.OpenSessionReq{
 		MaxPrivilegeLevel: opts.MaxPrivilegeLevel,
@@ -107,6 +116,17 @@ func (s *V2SessionlessTransport) newV2Session(ctx context.Context, opts *V2Sessi
 	})
 	if err != nil {
 		return nil, err
+	}
+	if openSessionRsp.AuthenticationPayload.Algorithm != cipherSuite.AuthenticationAlgorithm ||
+		openSessionRsp.IntegrityPayload.Algorithm != cipherSuite.IntegrityAlgorithm ||
+		openSessionRsp.ConfidentialityPayload.Algorithm != cipherSuite.ConfidentialityAlgorithm {
+		// the BMC must confirm exactly what we proposed; anything else would
+		// be a silent downgrade (or an algorithm we cannot use at all)
+		return nil, fmt.Errorf("BMC selected algorithms (%v, %v, %v) differing from those proposed (%v)",
+			openSessionRsp.AuthenticationPayload.Algorithm,
+			openSessionRsp.IntegrityPayload.Algorithm,
+			openSessionRsp.ConfidentialityPayload.Algorithm,
+			cipherSuite)
 	}
 
 	// RAKP Message 1, 2
